@@ -873,6 +873,10 @@ func (s *sc) lifecycle() {
 	}
 	err := s.chain.Close()
 	synctest.Wait()
+	if ch := s.rtcpOut.ChangedAfterWrite(); ch != "" {
+		s.viol("rtcp-write/packet-changed-after-it-was-written", "an RTCP packet object handed to the next writer reads differently at the end of the history: %s", ch)
+		return
+	}
 	anyErr := false
 	for _, p := range s.probes {
 		if p.bindW != 1 || p.bindR != 1 || p.bindsLocal != len(s.ls) || p.bindsRemote != len(s.rs) {
